@@ -1,6 +1,7 @@
 package rules
 
 import (
+	"dirkcheck/internal/prog"
 	"go/token"
 
 	"dirkcheck/internal/an"
@@ -179,6 +180,14 @@ func (l *Loop) IterationSkips(must func(ssa.Instruction) bool) bool {
 // BlanketOverwrite recognises `for i := range S { S[i] = c }` (full range, single unconditional store of
 // a constant accepted by okConst) and returns the loop, or nil.
 func BlanketOverwrite(l *Loop, root ssa.Value, okConst func(*ssa.Const) bool) bool {
+	return BlanketOverwriteVal(l, root, func(v ssa.Value) bool {
+		c, ok := v.(*ssa.Const)
+		return ok && okConst(c)
+	})
+}
+
+// BlanketOverwriteVal is BlanketOverwrite with a predicate on the stored value (which may be a parameter).
+func BlanketOverwriteVal(l *Loop, root ssa.Value, okVal func(ssa.Value) bool) bool {
 	if !l.FullRange || l.BoundLen == nil || l.BoundLen != root {
 		return false
 	}
@@ -196,12 +205,57 @@ func BlanketOverwrite(l *Loop, root ssa.Value, okConst func(*ssa.Const) bool) bo
 		if !ok || sliceRoot(ia.X) != root || ia.Index != l.Idx {
 			return false
 		}
-		c, ok := st.Val.(*ssa.Const)
-		if !ok || !okConst(c) {
+		if !okVal(st.Val) {
 			return false
 		}
 		found = true
 		return true
 	})
 	return found && !skip
+}
+
+// BlanketCall reports whether ci hands the slice `root` to a module helper that, on every path to its return, overwrites
+// every element of that slice with a value accepted by okConst (a constant in the helper, or a parameter whose argument
+// at ci is such a constant).
+func BlanketCall(ci ssa.CallInstruction, root ssa.Value, okConst func(*ssa.Const) bool) bool {
+	callee := ci.Common().StaticCallee()
+	if callee == nil || callee.Blocks == nil || !prog.InModule(callee) || ci.Common().IsInvoke() {
+		return false
+	}
+	for ai, a := range ci.Common().Args {
+		if sliceRootExact(a) != root || ai >= len(callee.Params) {
+			continue
+		}
+		p := callee.Params[ai]
+		okVal := func(v ssa.Value) bool {
+			if k, ok := v.(*ssa.Const); ok {
+				return okConst(k)
+			}
+			if q, ok := v.(*ssa.Parameter); ok {
+				for j, qq := range callee.Params {
+					if qq == q && j < len(ci.Common().Args) {
+						if k, ok := ci.Common().Args[j].(*ssa.Const); ok {
+							return okConst(k)
+						}
+					}
+				}
+			}
+			return false
+		}
+		exits := map[[2]*ssa.BasicBlock]bool{}
+		for _, l := range FindLoops(callee) {
+			if BlanketOverwriteVal(l, ssa.Value(p), okVal) {
+				exits[[2]*ssa.BasicBlock{l.Header, l.Exit}] = true
+			}
+		}
+		if len(exits) == 0 {
+			continue
+		}
+		x, _ := an.Cut(an.CutQuery{From: an.Entry(callee), Target: func(i ssa.Instruction) bool { _, ok := i.(*ssa.Return); return ok },
+			AcceptEdge: func(b *ssa.BasicBlock, i int, a *an.Atom) bool { return exits[[2]*ssa.BasicBlock{b, b.Succs[i]}] }})
+		if x == nil {
+			return true
+		}
+	}
+	return false
 }
